@@ -13,10 +13,10 @@ import (
 	"encoding/json"
 	"fmt"
 	"os"
-	"os/exec"
 	"runtime/debug"
 	"strings"
 	"testing"
+	"time"
 
 	"github.com/dadrus/heimdall/internal/keystore"
 	"github.com/dadrus/heimdall/internal/truststore"
@@ -109,38 +109,42 @@ func TestVerifC19KSChild(t *testing.T) {
 	fmt.Println("C19-CHILD-RETURNED", err)
 }
 
-func runChild(c *Content) (string, string) {
+func runChild(t *testing.T, c *Content) (string, string) {
+	t.Helper()
+
 	raw, _ := json.Marshal(c)
-	cmd := exec.Command(os.Args[0], "-test.run", "^TestVerifC19KSChild$", "-test.v")
-	cmd.Env = append(os.Environ(), "C19_CHILD_CONTENT="+string(raw), "VERIF_OUT=/dev/null")
-	out, err := cmd.CombinedOutput()
+	out, err := RunChild(t, "TestVerifC19KSChild", 40*time.Second, "C19_CHILD_CONTENT="+string(raw))
 
 	switch {
-	case err != nil && strings.Contains(string(out), "stack overflow"):
+	case err != nil && strings.Contains(out, "stack overflow"):
 		return "SChainLoop", "fatal error: stack overflow (child process exit: " + err.Error() + ")"
-	case strings.Contains(string(out), "C19-CHILD-RETURNED"):
+	case strings.Contains(out, "C19-CHILD-RETURNED"):
 		return "", ""
 	}
 
-	return "SOther", string(out)
+	return "SOther", fmt.Sprint(err, " ", out[:min(len(out), 600)])
 }
 
 // TestVerifC19Misc runs the three streams that need no in-package access in one binary
 // (case indices: key store 0.., trust store 100000.., request 200000.., remote 300000.., watch 400000.., scopes 500000..).
 func TestVerifC19Misc(t *testing.T) {
+	defer Watchdog(t, "misc", 100*time.Second)()
+
 	w := vf.NewWriter()
 	defer w.Close()
 
 	n := vf.N(460)
-	runKS(w, n*5/9)
+	runKS(t, w, n*5/9)
 	runTS(w, n*3/9)
 	runReq(w, n/18)
 	runRemote(w, n/18)
-	runWatch(w)
+	runWatch(t, w)
 	runScopes(w, n/9)
 }
 
-func runKS(w *vf.Writer, nrand int) {
+func runKS(t *testing.T, w *vf.Writer, nrand int) {
+	t.Helper()
+
 	root := vf.NewRand(vf.Seed())
 	contents := ksContents(os.Getenv("VERIF_TIER") != "quick")
 	nsys := len(contents)
@@ -176,7 +180,7 @@ func runKS(w *vf.Writer, nrand int) {
 
 		if a.Cyclic {
 			// a tree without the repair of C19-F6 dies of a stack overflow here: the child process goes first
-			site, o.Msg = runChild(c)
+			site, o.Msg = runChild(t, c)
 			if site == "" {
 				site, o.Msg = Catch(func() { ks, err = keystore.NewKeyStoreFromPEMBytes(c.Bytes(), pw) })
 			}
